@@ -81,7 +81,7 @@ def run_case(ctx, p, exprs, meta):
             if est == "linear":
                 out = variance_stokes_linear(mk(st0 + noise), sec, acq, nbin=p.get("nbin", 10))
                 results[tuple(order)] = (float(out[0]), float(out[1]))
-                if not (abs(float(out[0]) / p["a"] - 1) < 0.3 and abs(float(out[1]) - p["b"]) < 0.5 * p["b"] + 0.3 * p["a"] * float(st0.mean())):
+                if not (abs(float(out[0]) / p["a"] - 1) < 0.3 and abs(float(out[1]) - p["b"]) < 0.5 * p["b"] + 0.1 * p["a"] * float(st0.mean())):
                     ctx.violation(f"linear-slope-offset-not-recovered:shared={int(shared)}", f"planted var = {p['a']}*st + {p['b']}; estimated slope {float(out[0])}, offset {float(out[1])}", rec)
                 continue
             var, resid = fn(mk(st0 + noise), sec, acq)
@@ -160,7 +160,8 @@ def gen(ctx):
                 sl = [(5, 30), (45, 75)] if k % 2 == 0 else [(4, 20), (30, 50), (56, 76)]
                 out.append({"seed": int(rng.integers(1 << 30)), "nx": nxl, "nt": 60, "s": 1.0, "stretches": sl, "noisy": 0, "estimator": est,
                             "orders": [tuple(range(len(sl))), tuple(reversed(range(len(sl))))], "scale": None, "shared": bool(k % 2 == 0) or bool(rng.random() < 0.5),
-                            "a": float(rng.choice([0.01, 0.02, 0.05])), "b": float(rng.choice([2.0, 5.0])), "nbin": int(rng.choice([10, 20, 40]))})
+                            "a": float(rng.choice([0.01, 0.02, 0.05])), "b": float(rng.choice([20.0, 40.0])),
+                            "nbin": int([10, 7, 20, 11, 40, 13][k % 6])})   # incl. bin counts that do not divide the number of residuals
                 continue
             out.append({"shared": bool(rng.random() < 0.3), "seed": int(rng.integers(1 << 30)), "nx": nx, "nt": int(rng.integers(6, 10)) if est != "linear" else 30, "s": float(rng.choice([2.0, 10.0, 40.0])),
                         "stretches": stretches, "noisy": int(rng.integers(len(stretches))), "estimator": est, "orders": orders,
